@@ -1409,6 +1409,13 @@ func (fr *frame) enterLoop(h *ssa.BasicBlock, li *loopInfo, cur *state) {
 				}
 				fr.oblige(es, "inv", fmt.Sprintf("loop%d.%s.init", li.ordinal, label), loopPos(h), env.evalBool(inv.Expr, inv.Src), inv.Src)
 			}
+			for j, en := range spec.Entries {
+				label := en.Label
+				if label == "" {
+					label = fmt.Sprintf("n%d", j+1)
+				}
+				fr.oblige(es, "inv", fmt.Sprintf("loop%d.%s.entry", li.ordinal, label), loopPos(h), env.evalBool(en.Expr, en.Src), en.Src)
+			}
 		}
 	}
 	if li.outer != nil {
